@@ -857,7 +857,7 @@ theorem step_clob_false (R : Rules) (K : Nat → Kind) (n : Nat) (σ : State) (o
       (fun a t => by
         by_cases hm : muted.contains t = true
         · simp only [hm, if_true]
-        · simp only [hm]; exact addItem_clob R K n a f s t) (hashOrder xs)
+        · simp only [hm]; exact addItem_clob R K n a f s t) xs
       { σ with st := σ.st.set f s [], clob := σ.clob || !(σ.st f s).isEmpty }
     rw [this] at h
     have hc : ∀ (ts : List Nat) (c : Bool), ts.foldl (fun c _ => c) c = c := by
@@ -872,7 +872,7 @@ theorem step_clob_false (R : Rules) (K : Nat → Kind) (n : Nat) (σ : State) (o
   | assign f s xs =>
     simp only [step, reAdd] at h
     have := foldl_proj State.clob (fun h t => addItem R K n h f s t) (fun c _ => c)
-      (fun a t => addItem_clob R K n a f s t) (hashOrder xs)
+      (fun a t => addItem_clob R K n a f s t) xs
       { σ with st := σ.st.set f s [], clob := σ.clob || (σ.st f s).any (fun t => !σ.inf.contains (f, s, t)) }
     rw [this] at h
     have hc : ∀ (ts : List Nat) (c : Bool), ts.foldl (fun c _ => c) c = c := by
@@ -992,7 +992,7 @@ theorem step_markinv (R : Rules) (K : Nat → Kind) (n : Nat) (σ : State) (op :
   | add f s t => exact addItem_markinv R K n σ f s t h
   | assign f s xs =>
     simp only [step]
-    have : MarkInv K ((hashOrder xs).foldl (fun h t => addItem R K n h f s t)
+    have : MarkInv K (xs.foldl (fun h t => addItem R K n h f s t)
         { σ with st := σ.st.set f s [], clob := σ.clob || (σ.st f s).any (fun t => !σ.inf.contains (f, s, t)) }) :=
       foldl_inv (MarkInv K) _ (fun a t ha => addItem_markinv R K n a f s t ha) _ _ h
     exact this
@@ -1072,7 +1072,7 @@ theorem step_agree (R : Rules) (K : Nat → Kind) (n : Nat) (σ : State) (op : O
     have hcl : (σ.clob || (σ.st f s).any (fun t => !σ.inf.contains (f, s, t))) = false := by
       simp only [reAdd] at hc
       have := foldl_proj State.clob (fun h t => addItem R K (n + 1) h f s t) (fun c _ => c)
-        (fun a t => addItem_clob R K (n + 1) a f s t) (hashOrder xs)
+        (fun a t => addItem_clob R K (n + 1) a f s t) xs
         { σ with st := σ.st.set f s [], clob := σ.clob || (σ.st f s).any (fun t => !σ.inf.contains (f, s, t)) }
       rw [this] at hc
       have hcc : ∀ (ts : List Nat) (c : Bool), ts.foldl (fun c _ => c) c = c := by
@@ -1110,14 +1110,14 @@ theorem step_agree (R : Rules) (K : Nat → Kind) (n : Nat) (σ : State) (op : O
     -- the adds keep that, the graph and the remembered inferred elements only grow
     let P : State → Prop := fun τ =>
       FieldsAgree K ((σ.st f s).map fun t => (f, s, t)) τ ∧ MarkInv K τ ∧ (∀ x ∈ σ.g, x ∈ τ.g) ∧ (∀ x ∈ σ.inf, x ∈ τ.inf)
-    have A1 : P ((hashOrder xs).foldl (fun h t => addItem R K (n + 1) h f s t)
+    have A1 : P (xs.foldl (fun h t => addItem R K (n + 1) h f s t)
         { σ with st := σ.st.set f s [], clob := σ.clob || (σ.st f s).any (fun t => !σ.inf.contains (f, s, t)) }) := by
       apply foldl_inv P _ _ _ _ ⟨A0, hmk, fun x hx => hx, fun x hx => hx⟩
       intro a t ⟨h1, h2, h3, h4⟩
       exact ⟨addItem_agree R K n a f s t _ hwk h1, addItem_markinv R K (n + 1) a f s t h2,
         fun x hx => addItem_g_mono R K (n + 1) a f s t x (h3 x hx),
         fun x hx => addItem_inf_mono R K (n + 1) a f s t x (h4 x hx)⟩
-    generalize (hashOrder xs).foldl (fun h t => addItem R K (n + 1) h f s t)
+    generalize xs.foldl (fun h t => addItem R K (n + 1) h f s t)
         { σ with st := σ.st.set f s [], clob := σ.clob || (σ.st f s).any (fun t => !σ.inf.contains (f, s, t)) } = τ at A1 ⊢
     obtain ⟨h1, h2, h3, h4⟩ := A1
     -- the inferred elements come back: nothing is excluded any more
